@@ -34,10 +34,93 @@ def plan(tier, seed):
     items = W.cost_table()
     # cost here is dominated by the number of variants, not signatures
     items = [(n, d, 1) for n, d, _ in items]
-    return [{"i": i, "items": b} for i, b in enumerate(W.pack(items, NSHARDS[tier]))]
+    return [{"i": i, "items": b} for i, b in enumerate(W.pack(items, NSHARDS[tier]))] + [{"mutate": True, "dim": d} for d in (2, 3, 4)]
+
+
+def run_mutated(spec, tier, seed):
+    """arrays whose stored coordinates are overwritten in place *between* calls (`arr["x"] = ...`,
+    `awk["pt"] = awk.pt * corr`): every property and method afterwards must see the new values, i.e. give exactly what
+    a freshly built array of the same content gives (and what the object backend gives for the elements)"""
+    import awkward as ak
+    import numpy
+
+    from .. import backends as B
+    from .. import gen
+    from .. import refmodel as R
+    from ..engine import LVec
+
+    res = Result()
+    dim = spec["dim"]
+    r = gen.rng(seed, "C03mutate", dim)
+    n = 4
+    ops = [op for op in C.OPS.values() if dim in op.dims and not op.args and not op.momentum_only]
+    for system in R.SYSTEMS[dim]:
+        for mom in (False, True):
+            ls = []
+            while len(ls) < n:
+                rv, _ = gen.vec4(r, core=True, causal="timelike", forward=True) if dim == 4 else gen.vec(r, dim, core=True)
+                try:
+                    l = LVec(rv, system, mom)
+                    l.exact_coords()
+                    ls.append(l)
+                except R.NotRepresentable:
+                    pass
+            rows = [list(l.f64()[0]) for l in ls]
+            names_g = R.field_names(system)
+            for ci, cname in enumerate(names_g):
+                factor = 1.25 if cname not in ("phi", "theta") else 0.75
+                new_rows = [list(row) for row in rows]
+                for row in new_rows:
+                    row[ci] = row[ci] * factor
+                me = mom and any(B.MOM_SPELL[x] for x in names_g)
+                fname_m = B.names_for(system, me, 0)[ci]
+                builders = {
+                    "numpy": (lambda rws: B.mk_numpy_cls(system, rws, mom), cname),
+                    "awkward:zip": (lambda rws: B.mk_awk(system, rws, me, counts=[1, 0, n - 1]), cname),
+                    "awkward:with_name": (lambda rws: B.mk_awk(system, rws, me, counts=[1, 0, n - 1], route="with_name"), fname_m),
+                }
+                for bname, (build, field) in builders.items():
+                    try:
+                        arr = build(rows)
+                        fresh = build(new_rows)
+                        # warm up: touch properties and a method before the assignment
+                        for op in ops[:6]:
+                            op.call(arr)
+                        arr.azimuthal, getattr(arr, "longitudinal", None), getattr(arr, "temporal", None)
+                        if bname == "numpy":
+                            arr[field] = numpy.array([row[ci] for row in new_rows])
+                        else:
+                            arr[field] = arr[field] * factor
+                    except Exception as e:
+                        res.violation(f"C03/in-place-field-assignment-raises backend={bname.split(':')[0]}",
+                                      {"system": R.sysname(system), "field": field, "exc": f"{type(e).__name__}: {e}"[:200]})
+                        continue
+                    for op in ops:
+                        res.evaluations += 1
+                        try:
+                            a, b = op.call(arr), op.call(fresh)
+                        except Exception as e:
+                            res.count("mutated_call_raises:" + type(e).__name__)
+                            continue
+                        if op.result == "vec":
+                            ka, kb = B.stored_columns(a), B.stored_columns(b)
+                            same = ka[1] == kb[1] and [[B.bits(float(x)) for x in c] for c in ka[2]] == [[B.bits(float(x)) for x in c] for c in kb[2]]
+                        elif bname == "numpy":
+                            same = numpy.asarray(a).tobytes() == numpy.asarray(b).tobytes()
+                        else:
+                            same = ak.to_list(a) == ak.to_list(b) or str(ak.to_list(a)) == str(ak.to_list(b))
+                        if not same:
+                            res.violation(f"C03/result-after-in-place-field-assignment-differs-from-fresh-array backend={bname.split(':')[0]} op={op.name}",
+                                          {"system": R.sysname(system), "assigned_field": field, "momentum": mom})
+                        res.cell("mutate", op.name, bname, R.sysname(system), field)
+            if not mom:
+                res.sample({"part": "mutate", "system": R.sysname(system), "rows0": rows[0], "operations": len(ops)})
+    return res
 
 
 def run_shard(spec, tier, seed):
+    if spec.get("mutate"):
+        return run_mutated(spec, tier, seed)
     res = Result()
     sweep.run(spec["items"], tier, seed, res, "C03")
     return res
